@@ -10,7 +10,7 @@ FIELDS = ("op", "o", "o2", "v", "w", "ord", "ord2", "k", "r")
 DEFAULT = {"op": "nop", "o": "", "o2": "", "v": 0, "w": 0, "ord": "", "ord2": "", "k": "", "r": 0}
 
 ATOM_OPS = {"ld", "st", "rmw", "cas", "await", "wmut", "uld"}
-CELL_OPS = {"rd", "wr"}
+CELL_OPS = {"rd", "wr", "wrrd", "rdwr"}
 MTX_OPS = {"lock", "trylock", "unlock"}
 RW_OPS = {"read", "write", "tryread", "trywrite", "unlockr", "unlockw"}
 CV_OPS = {"cvwait", "notify1", "notifyall"}
@@ -19,7 +19,7 @@ CHAN_OPS = {"send", "recv", "tryrecv", "droprx"}
 ARC_OPS = {"aclone", "adrop", "acount", "agetmut", "aunwrap", "aintoraw", "afromraw", "aptreq", "ahold", "adropheld"}
 TRK_OPS = {"tnew", "tdrop", "tforget"}
 TL_OPS = {"tlwith", "tlnest"}
-LZ_OPS = {"lzget"}
+LZ_OPS = {"lzget", "lzread"}
 # operations that return a value (append to regs)
 RET_OPS = {"ld", "rmw", "cas", "await", "uld", "trylock", "tryread", "trywrite", "recv",
            "tryrecv", "acount", "agetmut", "aunwrap", "aptreq", "tlwith", "tlnest", "lzget", "blockon"}
@@ -41,7 +41,7 @@ def rmw(x, k, v, ord="rlx"): return I("rmw", x, k=k, v=v, ord=ord)
 def swap(x, v, ord="rlx"): return rmw(x, "swap", v, ord)
 def fadd(x, v, ord="rlx"): return rmw(x, "add", v, ord)
 def cas(x, exp, new, ord="rlx", ord2="rlx"): return I("cas", x, v=exp, w=new, ord=ord, ord2=ord2)
-def await_(x, ord="acq"): return I("await", x, ord=ord)
+def await_(x, ord="acq", v=0): return I("await", x, ord=ord, v=v)
 def fence(ord): return I("fence", ord=ord)
 def rd(c): return I("rd", c)
 def wr(c): return I("wr", c)
